@@ -23,6 +23,7 @@ type c18Case struct {
 	TermFail   int // j-th TerminateInstances call fails (0 = none)
 	StatusFail int // k-th status poll fails (0 = none)
 	PriorFails int // consecutive failed provisionings before this one (exit after the third)
+	HalfNever  bool // every other instance never becomes ready (the others are running from ReadyPoll on)
 }
 
 func c18Run(p c18Case) (entries []sim.Entry, err error, exit bool, pan any, setup error) {
@@ -32,6 +33,7 @@ func c18Run(p c18Case) (entries []sim.Entry, err error, exit bool, pan any, setu
 		return nil, nil, false, nil, e
 	}
 	env.W.ReadyFromPoll = p.ReadyPoll
+	env.W.ReadyHalfNever = p.HalfNever
 	// earlier failed provisionings (never ready) to exercise the consecutive-failure counter
 	for i := 0; i < p.PriorFails; i++ {
 		env.W.ReadyFromPoll = -1
@@ -76,7 +78,15 @@ func c18Check(c *h.Collector, p c18Case) {
 	if int64(len(acquired)) != p.Size {
 		report("C18/acquired-count", fmt.Sprintf("fleet returned %d instances", len(acquired)))
 	}
-	failure := p.ReadyPoll < 0 || p.ReadyPoll > 4 || attachWillFail(p)
+	halfNeverHits := false
+	if p.HalfNever {
+		for id := range acquired {
+			if sim.NeverReadyUnderHalf(id) {
+				halfNeverHits = true
+			}
+		}
+	}
+	failure := p.ReadyPoll < 0 || p.ReadyPoll > 4 || attachWillFail(p) || halfNeverHits
 	if failure {
 		c.R.Cov["c18.failure-cases"]++
 		if exit {
@@ -125,6 +135,10 @@ func c18Grid(t *testing.T, tier string, shard, shards int, c *h.Collector) {
 			}
 			for sf := 1; sf <= 3; sf++ {
 				run(c18Case{Size: n, ReadyPoll: 1, StatusFail: sf})
+			}
+			for _, rp := range []int{1, 3} {
+				run(c18Case{Size: n, ReadyPoll: rp, HalfNever: true})
+				run(c18Case{Size: n, ReadyPoll: rp, HalfNever: true, TermFail: 1})
 			}
 			calls := int((n + 19) / 20)
 			step := 1
@@ -227,7 +241,7 @@ func init() {
 	register(&Check{
 		ID:    "C18",
 		Level: "fault_enumeration",
-		Rule: "fleet sizes {1,19,20,21,40,41,45,1000,1001,2500} x {ready on poll 1..4, never ready} x {no fault, k-th AttachInstances fails for every k (every k thorough; 12 evenly spaced k for the sizes >= 1000 quick), j-th TerminateInstances fails j=1..3, k-th status poll fails} x 0..2 earlier consecutive failed provisionings, on the real provider; " +
+		Rule: "fleet sizes {1,19,20,21,40,41,45,1000,1001,2500} x {ready on poll 1..4, never ready, every other instance never ready} x {no fault, k-th AttachInstances fails for every k (every k thorough; 12 evenly spaced k for the sizes >= 1000 quick), j-th TerminateInstances fails j=1..3, k-th status poll fails} x 0..2 earlier consecutive failed provisionings, on the real provider; " +
 			"plus controller histories in fleet mode (deviation-bounded DFS, faults at CreateFleet/status/attach/terminate) for the no-lock-after-failure clause; non-trivial = every fault case; distinct by its parameters",
 		Grid:      c18Grid,
 		Scenarios: C18Scenarios,
